@@ -118,8 +118,19 @@ def parse_tlc(r):
     m = re.search(r"The depth of the complete state graph search is (\d+)", out)
     if m:
         r.diameter = int(m.group(1))
-    for m in re.finditer(r"^(<<.*>>|\".*\")$", out, re.M):
-        r.prints.append(m.group(1))
+    # PrintT output: a tuple, possibly wrapped over several lines by TLC's pretty printer
+    cur, depth = None, 0
+    for line in out.split("\n"):
+        if cur is None:
+            if line.startswith("<<"):
+                cur, depth = "", 0
+            else:
+                continue
+        cur += (" " if cur else "") + line.strip()
+        depth += line.count("<<") - line.count(">>")
+        if depth <= 0:
+            r.prints.append(cur)
+            cur = None
     r.violated = None
     m = re.search(r"Invariant (\S+) is violated", out)
     if m:
